@@ -246,6 +246,11 @@ func (p *c03peer) react(d *oracle.Decoded, probe []byte, dst uint32, dport uint1
 			} else {
 				add("reply", true, recTCP(srcS, dport, flagsStr(f)), p.tcpFrame(src, dport, sport, f))
 			}
+		case k == 3 && !syn && p.rng.Intn(2) == 0: // the same reply with and without the ninth flag (NS), back to back
+			f := uint16(p.rng.Intn(256))
+			add("flags-ns-pair", true, recTCP(srcS, dport, flagsStr(f|oracle.FlagNS)), p.tcpFrame(src, dport, sport, f|oracle.FlagNS))
+			add("flags-ns-pair", true, recTCP(srcS, dport, flagsStr(f)), p.tcpFrame(src, dport, sport, f))
+			add("flags-ns-pair", true, recTCP(srcS, dport, flagsStr(f|oracle.FlagNS)), p.tcpFrame(src, dport, sport, f|oracle.FlagNS))
 		case k == 3: // every other flag combination
 			f := uint16(p.rng.Intn(512))
 			shaped := !syn || f == oracle.FlagSYN|oracle.FlagACK
